@@ -408,11 +408,8 @@ def check(spec):
     up.discretize(g, data)
     M = data[pp.DISCRETIZATION_MATRICES][KW]
     U, Rd, Rn = M[up.upwind_matrix_key], M[up.bound_transport_dir_matrix_key], M[up.bound_transport_neu_matrix_key]
-    require(np.array_equal(data[pp.PARAMETERS][KW]["darcy_flux"], q), "flux-mutated", "discretize changed darcy_flux")
-    if "bc" in params:
-        bcp = data[pp.PARAMETERS][KW]["bc"]
-        require(np.array_equal(bcp.is_dir, is_dir) and np.array_equal(bcp.is_neu, is_neu), "bc-mutated",
-                "discretize changed the boundary condition object")
+    # (whether discretize leaves darcy_flux / the bc object untouched is not demanded: the oracle below is computed from
+    # the inputs as supplied, so a modification only matters through the matrices it leads to)
 
     # ---- oracle
     exp_col, d_dir, d_neu, inflow, outflow = _expected(g, inc, q, is_dir, is_neu)
